@@ -571,7 +571,8 @@ fn main() {
         });
     }
 
-    // essential classes must have been reached by the grid alone
+    // essential classes must have been reached by the grid alone (checked below, before the sweep
+    // adds to the same counters)
     let mut missing = vec![];
     for t in cases::targets() {
         for m in [0, 1] {
@@ -608,8 +609,52 @@ fn main() {
         check.inconclusive(&format!("essential classes not reached by the grid: {missing:?}"));
     }
 
-    // 2. random volume
-    let n = check.tier.pick(30_000u32, 600_000);
+    // 2. shape sweep: every (w, h) in 1..=64 × 1..=64 × mipmaps on/off, target rotating
+    //    (quick: 1 target per shape, thorough: 5), exclusion switches applied
+    {
+        let ts = cases::targets();
+        let per = check.tier.pick(1usize, 5);
+        let mut sweep = vec![];
+        for w in 1..=64u32 {
+            for h in 1..=64u32 {
+                for mips in [false, true] {
+                    for r in 0..per {
+                        let k = (w as usize * 131 + h as usize * 17 + mips as usize * 7 + r * 5) % ts.len();
+                        let c = Case {
+                            w,
+                            h,
+                            kind: 0,
+                            pix: (w as usize + 3 * h as usize + r) % cases::PIX_CLASSES.len(),
+                            seed: (w * 65_537 + h * 257 + r as u32).wrapping_mul(2654435761),
+                            target: ts[k],
+                            mips,
+                            filter: (w as usize + h as usize + r) % cases::FILTERS.len(),
+                            steered: "",
+                            canary: false,
+                        };
+                        sweep.push(cases::steer(c, sw));
+                    }
+                }
+            }
+        }
+        check.set_extra("sweep_cases", json!(sweep.len()));
+        let next = std::sync::atomic::AtomicUsize::new(0);
+        std::thread::scope(|s| {
+            for _ in 0..engine::WORKERS {
+                std::thread::Builder::new()
+                    .stack_size(32 << 20)
+                    .spawn_scoped(s, || loop {
+                        let i = next.fetch_add(1, std::sync::atomic::Ordering::Relaxed);
+                        let Some(c) = sweep.get(i) else { break };
+                        let _ = run_case(&check, c, false);
+                    })
+                    .expect("spawn");
+            }
+        });
+    }
+
+    // 3. random volume
+    let n = check.tier.pick(100_000u32, 600_000);
     let max_dim = check.tier.pick(160u32, 512);
     pt::run(
         &check,
